@@ -43,8 +43,9 @@ pub struct Cfg {
 }
 
 impl Cfg {
-    /// `swapped`: call `version` before `build_crate` (the setters are independent, so the order must not matter)
-    fn lib_args(&self, swapped: bool) -> Vec<String> {
+    /// `swapped`: call `version` before `build_crate` (the setters are independent, so the order must not matter);
+    /// `implicit`: leave `version` out where the documentation says it defaults to the `build_crate` version
+    fn lib_args(&self, swapped: bool, implicit: bool) -> Vec<String> {
         let mut v = vec![format!("--exhaustive={}", self.exhaustive), format!("--empties={}", self.empties)];
         if let Some(s) = &self.strip {
             v.push(format!("--strip={}", s));
@@ -53,7 +54,9 @@ impl Cfg {
             // the library equivalent of the tool's flags: the crate gets the crate version (default: the
             // product version), endpoint metadata the product version
             let (a, b) = (format!("--crate={}:{}", n, cv.as_ref().unwrap_or(ver)), format!("--version={}", ver));
-            if swapped {
+            if implicit && cv.is_none() {
+                v.push(a);
+            } else if swapped {
                 v.push(b);
                 v.push(a);
             } else {
@@ -179,9 +182,9 @@ fn one(cs: &mut Cases, label: &str, ir: &Value, cfg: &Cfg, cli: &Result<PathBuf,
     std::fs::write(&ir_path, serde_json::to_vec(ir).unwrap()).unwrap();
     let me = std::env::current_exe().unwrap();
     let mut trees: Vec<(String, Result<BTreeMap<String, Vec<u8>>, String>)> = vec![];
-    for run in ["lib1", "lib2", "lib3"] {
+    for run in ["lib1", "lib2", "lib3", "lib4"] {
         let out = root.join(run);
-        let o = Command::new(&me).arg("gen").arg(&ir_path).arg(&out).args(cfg.lib_args(run == "lib3")).current_dir(&root).output();
+        let o = Command::new(&me).arg("gen").arg(&ir_path).arg(&out).args(cfg.lib_args(run == "lib3", run == "lib4")).current_dir(&root).output();
         trees.push((run.to_string(), match o {
             Ok(o) if o.status.success() => {
                 let mut t = BTreeMap::new();
@@ -208,7 +211,7 @@ fn one(cs: &mut Cases, label: &str, ir: &Value, cfg: &Cfg, cli: &Result<PathBuf,
     // anything created outside the three output directories?
     let mut all = BTreeMap::new();
     read_tree(&root, &root, &mut all);
-    let strays: Vec<String> = all.keys().filter(|k| *k != "ir.json" && !k.starts_with("lib1/") && !k.starts_with("lib2/") && !k.starts_with("lib3/") && !k.starts_with("cli/")).cloned().collect();
+    let strays: Vec<String> = all.keys().filter(|k| *k != "ir.json" && !k.starts_with("lib1/") && !k.starts_with("lib2/") && !k.starts_with("lib3/") && !k.starts_with("lib4/") && !k.starts_with("cli/")).cloned().collect();
     let nontrivial = cfg.exhaustive || cfg.empties || cfg.strip.is_some() || cfg.krate.is_some() || !ir["services"].as_array().map(|a| a.is_empty()).unwrap_or(true) || ir["types"].as_array().map(|a| a.len() >= 2).unwrap_or(false);
     let note = format!("{} {:?} ({} types, {} services)", label, cfg, ir["types"].as_array().map(|a| a.len()).unwrap_or(0), ir["services"].as_array().map(|a| a.len()).unwrap_or(0));
     // model: the written paths (module mode only: the crate wrapper adds Cargo.toml etc. and `src/`)
